@@ -341,7 +341,7 @@ func verifC04BuildTypeMatrix() (out []string) {
 }
 
 func verifC04Gen(r *verifC04Rng, thorough bool) (cases []verifC04Case) {
-	nRand := 90
+	nRand := 60
 	if thorough {
 		nRand = 2500
 	}
@@ -362,7 +362,7 @@ func verifC04Gen(r *verifC04Rng, thorough bool) (cases []verifC04Case) {
 		}
 		add("primary", verifC04Marshal(&b.PrimaryBlock), nRand/3)
 		for i := range b.CanonicalBlocks {
-			add("canonical", verifC04Marshal(&b.CanonicalBlocks[i]), nRand/6)
+			add("canonical", verifC04Marshal(&b.CanonicalBlocks[i]), nRand/10)
 		}
 	}
 	// large inputs: honest sizes (calibrates k) and lying lengths on them
